@@ -7,6 +7,7 @@ Line-protocol driver for C03 (state = the model Voter + the key universe seen so
   D                                                         dump of the counting state             -> one line
   Q T isPos                                                 uint32(float64(T)*c)                   -> n
   L srvRound srvIndex msgRound msgIndex vrfOK               verifySortition leniency               -> 0|1
+  X h                                                       the inserter refused block h           -> ret
   HA T Tc                                                   headerAccepted on the last commit      -> accept|reject|none
 -/
 import YouVerif.C03.Model
@@ -140,6 +141,12 @@ def step' (d : DState) (line : String) : DState × String :=
   | "EC" :: rest =>
     match natsOf rest with
     | some [b] => ({ d with v := (step d.v (.envCertErr (b != 0))).1 }, "ok")
+    | _ => (d, "bad-op")
+  | "X" :: rest =>
+    match natsOf rest with
+    | some [h] =>
+      let (v', outs, ret) := step d.v (.insertFailed h)
+      ({ d with v := v' }, respond outs ret)
     | _ => (d, "bad-op")
   | "Q" :: rest =>
     match natsOf rest with
